@@ -4,3 +4,4 @@ import DsdVerif.Props.C14Reader
 import DsdVerif.Props.C14Sigma
 import DsdVerif.Props.C14SigmaCplx
 import DsdVerif.Props.C14Text
+import DsdVerif.Props.C14SigmaRxn
